@@ -1,5 +1,6 @@
 """C20 -- Global settings: validated, atomic, one default, restored after temporary use."""
 import json
+import numpy as np
 import os
 import subprocess
 import sys
@@ -479,6 +480,35 @@ def check_plot_wrapper_oracle():
                 out.append("FunctionOnPlot.{} with a failing function: sample size {} before, {} after".format(
                     attr, size, now))
                 q.set_monte_carlo_sample_size(size)
+        # ... and through the public rendering path: a plot with a curve whose evaluation fails / succeeds
+        import qexpy.plotting as qp
+        import tempfile
+        for exc in (ZeroDivisionError, KeyboardInterrupt, None):
+            def make_curve(exc_class):
+                def curve(x):
+                    if exc_class is not None and np.any(np.asarray(x) > 0.5):
+                        raise exc_class("user function fails")       # (only on part of the range: the plot is set up first)
+                    return 2 * x
+                return curve
+            curve = make_curve(exc)
+            for how in ("savefig", "show"):
+                try:
+                    fig = qp.plot(curve, xrange=(0, 1))
+                    if how == "savefig":
+                        with tempfile.TemporaryDirectory() as d:
+                            fig.savefig(os.path.join(d, "p.png"))
+                    else:
+                        fig.show()
+                except BaseException:  # noqa
+                    pass
+                finally:
+                    import matplotlib.pyplot as plt
+                    plt.close("all")
+                now = q.get_settings().monte_carlo_sample_size
+                if now != size:
+                    out.append("plot(function).{}() with a function that {}: sample size {} before, {} after".format(
+                        how, "raises " + exc.__name__ if exc else "returns", size, now))
+                    q.set_monte_carlo_sample_size(size)
         a = q.Measurement(5, 0.5)
         g = po.FunctionOnPlot(lambda x: a * x, xrange=(0, 1))
         _ = g.yvalues, g.yerr
